@@ -597,9 +597,9 @@ func (envs *Manager) TeardownEnvironment(environmentId uid.ID, force bool) error
 		"partition": environmentId.String(),
 	}).Info("tearing down environment")
 
-	envs.mu.RLock()
+	// environment() takes the read lock itself: taking it here as well is a recursive read lock, which
+	// deadlocks as soon as a writer queues up between the two acquisitions
 	env, err := envs.environment(environmentId)
-	envs.mu.RUnlock()
 
 	if err != nil {
 		return err
